@@ -92,6 +92,18 @@ CLAIMED = {
         technique="Lean 4 proof over translator-generated programs (erasure soundness, decide obligations) + exact estimator correspondence",
         note=TB + " Equalities hold under the stated hypotheses (optimize = id on a converged trial; rebuild = id at zero coupling), which the run instantiates; Python dispatch beyond arity is covered by actually calling every entry point.",
     ),
+    "C09": dict(
+        category="proof",
+        text=("Lean theorems on IEEE-like values (finite rationals, +-inf, NaN with IEEE comparison semantics): for every raw importance factor "
+              "the applied factor is 0 or inside [1e-3,100]; one phaseless step preserves 'finite real in [0,100]' and keeps a dead walker dead; by "
+              "induction any history does; killed count <= population; the CPMC clip as originally written lets NaN through (kernel-checked witness, "
+              "replayed on the real code and repaired by a fix: commit), the NaN-safe form preserves the invariant for every raw ratio. Tied to the "
+              "code by driving the real propagate into every value class of the raw factor (via the stored overlaps) and comparing weights with the "
+              "model, and by monitored histories of all seven propagators with hostile time steps, interactions, trials and injected extreme fields."),
+        design_ref="DESIGN.md §5/C09",
+        technique="Lean 4 proof (case analysis on IEEE-like values, induction over histories) + value-class correspondence + monitored histories",
+        note=TB + " exp/log/cos/angle and rounding are outside the model (raw factor taken as data); CPMC two-body internals are covered by the monitored histories only.",
+    ),
 }
 
 NOT_YET = {}
